@@ -32,6 +32,7 @@ RULE = ("quick: every pick sequence of length <= 8 for one submitter + completer
         "runs of the real Pipeline (up to 64 submissions, duplicates, 4 worker threads); thorough: lengths 10 / 7, 1500 random, 12 stress runs. "
         "non-trivial = a schedule in which some submitter found no result at its check (token C, it had to wait) and every submitter returned")
 NONTRIVIAL_FLOOR = 50
+REGISTERED = True
 HARNESS_TIMEOUT = 1800
 
 
